@@ -484,7 +484,8 @@ def render_crate(types, methods):
     L.append("    use crate::verif_support::{Dump, AsChar, log_call, sel};")
     L.append("    use diplomat_runtime::{DiplomatOption, DiplomatWrite, DiplomatChar, DiplomatByte, DiplomatStr, DiplomatStr16, DiplomatSlice, DiplomatSliceMut, DiplomatOwnedSlice, DiplomatStrSlice, DiplomatStr16Slice, DiplomatUtf8StrSlice};")
     L.append("    #[diplomat::opaque]\n    pub struct Op(pub u32);")
-    L.append("    impl Op {\n        pub fn new(id: u32) -> Box<Op> { Box::new(Op(id)) }\n        pub fn id(&self) -> u32 { self.0 }\n    }")
+    L.append("    impl Op {\n        pub fn new(id: u32) -> Box<Op> { Box::new(Op(id)) }\n        pub fn id(&self) -> u32 { self.0 }\n"
+             "        #[diplomat::attr(supports = comparators, comparison)]\n        pub fn compare(&self, other: &Op) -> core::cmp::Ordering { self.0.cmp(&other.0) }\n    }")
     for e in types["enums"]:
         L.append(e.decl())
     for st in types["structs"]:
@@ -883,6 +884,13 @@ def expected_line_cpp(m, j, case):
     return e
 
 
+def cmp_expected():
+    out = []
+    for x, y in ((1, 1), (1, 2), (2, 1), (0, 4000000000)):
+        out.append("CMP %d %d eq=%d ne=%d lt=%d le=%d gt=%d ge=%d" % (x, y, x == y, x != y, x < y, x <= y, x > y, x >= y))
+    return out
+
+
 def _py_utf8(b):
     try:
         b.decode("utf8")
@@ -978,6 +986,9 @@ def render_cpp_drivers(types, methods, headers, nshards=16):
     L = list(head)
     for (m, k) in sweeps:
         L.append(cpp_utf8_sweep(types, m, k))
+    # the comparison special method: all six operators over ordered / equal / reversed pairs
+    L.append("static void cmp_block() { for (auto [x, y] : {std::pair<uint32_t, uint32_t>{1, 1}, {1, 2}, {2, 1}, {0, 4000000000u}}) { auto a = Op::new_(x); auto b = Op::new_(y);"
+             ' printf("CMP %u %u eq=%d ne=%d lt=%d le=%d gt=%d ge=%d\\n", x, y, (int)(*a == *b), (int)(*a != *b), (int)(*a < *b), (int)(*a <= *b), (int)(*a > *b), (int)(*a >= *b)); } }')
     for k in range(nshards):
         L.append("void run_shard_%d(void);" % k)
     L.append("int main() {")
@@ -985,6 +996,7 @@ def render_cpp_drivers(types, methods, headers, nshards=16):
         L.append("    run_shard_%d();" % k)
     for (m, k) in sweeps:
         L.append("    utf8_%d_%d();" % (m["i"], k))
+    L.append("    cmp_block();")
     L.append('    printf("DONE\\n");\n    return 0;\n}')
     shards.append("\n".join(L) + "\n")
     order = []
